@@ -95,21 +95,18 @@ theorem copy_independent {Out : Type} (F : Nat → (Read → Val) → Args → O
     ∀ k x, (stepM memoSites F st2 (.eval j k x)).2
       = some (F k (fun r => getP (paramsOf st1.heap src) r.attr) x) := by
   intro st1 j st2
-  have hk : cs.kind ≠ .alias := by
+  have hk : cs.kind = .shallow ∨ cs.kind = .deep := by
     have := copy_table cs hcs
     simpa [copyOK] using this
   have hj : j = st1.heap.length := by
     show copyTarget st1.heap src cs.kind = _
-    cases hkind : cs.kind <;> simp_all [copyTarget]
+    rcases hk with hk | hk <;> simp [hk, copyTarget]
   have hget : st1.heap[src]? = some st1.heap[src] := List.getElem?_eq_getElem hsrc
   -- the copy step appends an object with the source's attribute values
   have hstep : (stepM memoSites F st1 (.copy src cs.kind)).1.heap.length = st1.heap.length + 1 ∧
       paramsOf (stepM memoSites F st1 (.copy src cs.kind)).1.heap st1.heap.length
         = paramsOf st1.heap src := by
-    cases hkind : cs.kind with
-    | alias => exact absurd hkind hk
-    | shallow => simp [stepM, hget, paramsOf]
-    | deep => simp [stepM, hget, paramsOf]
+    rcases hk with hk | hk <;> simp [hk, stepM, hget, paramsOf]
   have hI1 := inv_run isPublic memoSites F memo_table hF pre initM
     (inv_init isPublic memoSites F) hpre
   have hI1' := inv_step isPublic memoSites F memo_table hF st1 (.copy src cs.kind) hI1 trivial
@@ -183,6 +180,22 @@ example :
       [.new "CustomSD" [("temperature", 1)], .eval 0 0 [3], .copy 0 .deep,
        .setParam 0 "temperature" 5, .eval 0 0 [3], .eval 1 0 [3]]
     = [none, some ([1], [3]), none, none, some ([5], [3]), some ([1], [3])] := by decide
+
+/-- what `copy_table` excludes for the object `Bath.correlations` hands out: with a copy made
+    once and handed out ever after (`once`), an assignment on the handed-out object is seen by
+    the next access (object 1 both times); with a copy per access it is not -/
+example :
+    let k := memoIdx memoSites "PowerLawSD" "correlation"
+    (outsM memoSites (freeBody memoSites) initM
+      [.new "PowerLawSD" [("alpha", 1)], .copy 0 .once, .setParam 1 "alpha" 4, .copy 0 .once,
+       .eval 1 k []]).map (fun o => o.map (fun p => p.1.contains 4))
+    = [none, none, none, none, some true] ∧
+    copyTargetS (runM memoSites (freeBody memoSites) initM
+      [.new "PowerLawSD" [("alpha", 1)], .copy 0 .once]) 0 .once = 1 ∧
+    (outsM memoSites (freeBody memoSites) initM
+      [.new "PowerLawSD" [("alpha", 1)], .copy 0 .shallow, .setParam 1 "alpha" 4, .copy 0 .shallow,
+       .eval 2 k []]).map (fun o => o.map (fun p => p.1.contains 4))
+    = [none, none, none, none, some false] := by decide
 
 /-! ### (3) user arrays: no mutation, no dependence on the memory layout -/
 
@@ -364,5 +377,37 @@ example :
     outsR .fresh 1 initR [.call, .write 0 9, .call] = [some 1, none, some 1] ∧
     outsR .cached 1 initR [.call, .write 0 9, .call] = [some 1, none, some 9] ∧
     (runR .cached 1 initR [.call, .call]).results = [0, 0] := by decide
+
+/-! ### (7) what `initialize()` derives from the caller's parameter / chain objects -/
+
+/-- every attribute `PtTebd.initialize` computes from `self._parameters` / `self._system_chain`
+    is assigned unconditionally -/
+theorem derived_table : ∀ s ∈ derivedStores, derivedOK s = true := by decide
+
+/-- **reinit_current.**  For every listed attribute, whatever happened before (earlier
+    initialisations, changes of the caller's objects in between): after `initialize()` the
+    attribute is the value computed from the objects' *current* state. -/
+theorem reinit_current {Out : Type} (s : DerivedStore) (hs : s ∈ derivedStores) (f : Val → Out)
+    (st0 : DState Out) (hist : List DOp) :
+    (runD s.guard f st0 (hist ++ [.init])).derived = some (f (runD s.guard f st0 hist).source) := by
+  have hg : s.guard = .always := by
+    have := derived_table s hs
+    simpa [derivedOK] using this
+  rw [hg]
+  have happ : ∀ (l : List DOp) (st : DState Out),
+      runD .always f st (l ++ [.init]) = stepD .always f (runD .always f st l) .init := by
+    intro l
+    induction l with
+    | nil => intro st; rfl
+    | cons op ops ih => intro st; simp only [List.cons_append, runD]; exact ih _
+  rw [happ]
+  exact (derived_after_init f _).1
+
+/-- non-vacuity / the restart scenario: initialise, change dt, initialise again -/
+example :
+    (runD .always (fun v => v) { source := 1, derived := none }
+      [.init, .mutate 5, .init]).derived = some 5 ∧
+    (runD .onlyIfUnset (fun v => v) { source := 1, derived := none }
+      [.init, .mutate 5, .init]).derived = some 1 := by decide
 
 end OQuPyVerif.Props.C20
